@@ -1,6 +1,7 @@
 import Driver.Util
 import Driver.Vec
 import Driver.Queue
+import Driver.PubSub
 import Driver.SlotMap
 import Driver.FlatMap
 import Driver.Str
@@ -37,6 +38,7 @@ partial def loop (c : Comp) (hin hout : IO.FS.Stream) (s : c.σ) (buf : String) 
 def components : List (String × Comp) := [
   ("vec", VecD.comp),
   ("queue", QueueD.comp),
+  ("pubsub", PubSubD.comp),
   ("slotmap", SlotMapD.comp),
   ("flatmap", FlatMapD.comp),
   ("string", StrD.comp),
